@@ -141,6 +141,7 @@ def check(run, ctx):
     r4(run, ctx)
     r5(run, ctx)
     r6(run, ctx)
+    r7(run, ctx)
 
 
 def r1(run, ctx, seen):
@@ -333,3 +334,13 @@ def r6(run, ctx):
         fd.rule = 'R6'
         fd.key = fd.key.replace('R1|', 'R6|', 1)
         run.findings.append(fd)
+
+
+def r7(run, ctx):
+    from rules import c06
+    doc = ('a waiting request is always answered, also when its operation fails (shared with '
+           'C06 R2/R4/R6: reply counts, id/cid handed to every reply call, done-callbacks relay '
+           'failures)')
+    run.share(ctx, c06.r2, 'R2', 'R7', doc)
+    run.share(ctx, c06.r4, 'R4', 'R7', doc)
+    run.share(ctx, c06.r6, 'R6', 'R7', doc)
